@@ -409,7 +409,11 @@ class JsonTable:
         own = lambda cb: bool(cb.impl and cb.impl.get("self_adt") == self.JS and not cb.impl.get("trait"))
         self.lookups = [b for b in F.crate_bodies() if own(b) and (strip_refs(b.locals[0]) or "").startswith("writer::json::Element")]
         opq = "^(" + "|".join(re.escape(b.name) for b in self.lookups) + ")$" if self.lookups else None
-        self.dp = D.Deep(F, self.co, inline_only=own, opaque=opq, max_paths=6000)
+        # (also inlined: private classifiers of the json types that look at an event value — `Status::of_error(&StepError)` — so that the rows
+        # split by what they split by in the inline spelling)
+        classif = lambda cb: bool(cb.impl and (cb.impl.get("self_adt") or "").startswith("writer::json::") and not cb.impl.get("trait") and cb.kind in ("Fn", "AssocFn")
+                                  and any("event::" in ty for ty in cb.locals[1:cb.arg_count + 1]) and len(cb.blocks) < 60)
+        self.dp = D.Deep(F, self.co, inline_only=lambda cb: own(cb) or classif(cb), opaque=opq, max_paths=6000)
         self.rows = self.dp.run()
         if not self.rows or any(p.cut for p in self.rows):
             raise Unverifiable("Json::handle_event: empty path table or a loop")
@@ -518,7 +522,13 @@ def r7(F, R):
                 return True
             if len(lookup) != 1:
                 return False
-            args = lookup[0][2]
+            args = []
+            for a in lookup[0][2]:
+                # a private parameter struct (`ScenarioRef { feature, rule, scenario }`) stands for its fields
+                if isinstance(a, tuple) and len(a) == 4 and a[0] == "variant" and a[1].startswith("writer::json::") and not a[1].startswith("std::"):
+                    args.extend(a[3])
+                else:
+                    args.append(a)
             roots = [T.roots(a) for a in args]
             consts = [x[1] for a in args if isinstance(a, tuple) and a and a[0] in ("const", "ref", "refto", "deref") for x in D.subterms(a) if x[0] == "const" and isinstance(x[1], str)]
             feat = any(any(r.endswith("@Feature.0") for r in rs) for rs in roots)
@@ -1280,8 +1290,27 @@ def r10(F, R):
                     for nme, v in zip(names, p.ret[3]):
                         if nme in cmp_sigs:
                             ctor_sigs.setdefault(nme, set()).add(sig(Tk, v))
+            def helper_of_ctor_field(nme):
+                """crate-local fn whose result the constructor stores in field `nme` (`name: Self::name_of(rule, scenario)`)"""
+                for _, st in ctors[0].assigns(lambda st: st["rv"]["k"] == "agg" and st["rv"].get("adt") == eadt):
+                    ops = dict(zip(st["rv"].get("fields") or names, st["rv"]["ops"]))
+                    l_ = op_local(ops.get(nme)) if ops.get(nme) is not None else None
+                    sd = ctors[0].single_def(A.canon_place(ctors[0], {"l": l_, "p": []})["l"]) if l_ is not None else None
+                    if sd and sd[1] == "call":
+                        return F.callee_body(sd[2], ctors[0].crate)
+                return None
+
+            def helpers_of_lookup():
+                """crate-local fns whose results the look-up routine computes before the predicate (captured by it)"""
+                return {F.callee_body(t2, lk.crate).key for _, t2 in lk.calls() if F.callee_body(t2, lk.crate) is not None}
             for nme in sorted(cmp_sigs):
                 n_k += 1
+                if ctor_sigs.get(nme) != cmp_sigs[nme]:
+                    hb = helper_of_ctor_field(nme)
+                    if hb is not None and hb.key in helpers_of_lookup() and all(not rs or all("." not in r for r in rs) for rs, _, _ in cmp_sigs[nme]):
+                        # both sides go through the same private helper (`Element::name_of(rule, scenario)`): they agree by construction
+                        R.ok(f"json/lookup-key-agrees/{eadt.rsplit('::', 1)[-1]}.{nme}", s_, f"both the constructor and the look-up build `{nme}` with `{hb.short.rsplit('::', 1)[-1]}`")
+                        continue
                 R.check(ctor_sigs.get(nme) == cmp_sigs[nme], f"json/lookup-key-agrees/{eadt.rsplit('::', 1)[-1]}.{nme}", s_, "the look-up compares the field with what the constructor stores in it",
                         f"`{eadt.rsplit('::', 1)[-1]}::new` stores `{nme}` built as {sorted(ctor_sigs.get(nme, []))[:2]} but `{lk.short.rsplit('::', 1)[-1]}` looks entries up by {sorted(cmp_sigs[nme])[:2]}: "
                         f"where the two differ the entry just created is not found again and every event of the scenario pushes a new one")
